@@ -34,6 +34,7 @@ def run(res, tier, replay):
                 "non-trivial = a fault that actually fired; plus signature-byte corruptions of generated files of each format")
     proofs_ok = vlib.coq_gate(res, "Properties_C10")
     robust.l2_szdd(res, tier, rng)
+    robust.l2_kwaj(res, tier, rng)
     sw = robust.Sweep(res, tier, rng, fault_per_kind=(3 if tier == "quick" else 16))
     if sw.ok:
         n, checked = robust.fault_oracle(res, sw)
